@@ -267,7 +267,7 @@ func ruleC11ProtectionTransitions(c *Ctx) {
 				return pathContinue
 			}, func(from, to *ssa.BasicBlock) bool {
 				for _, fct := range edgeFacts(from, to) {
-					if isCounterZeroTest(fct.V) && !fct.True {
+					if z, ok := counterZeroFact(fct); ok && !z {
 						return false
 					}
 				}
@@ -286,7 +286,7 @@ func ruleC11ProtectionTransitions(c *Ctx) {
 		} else {
 			ok, tr := mustPass(dec[0].Block(), indexOf(dec[0])+1, func(i ssa.Instruction) bool { return protectFlag(i) == "NoAccess" }, func(from, to *ssa.BasicBlock) bool {
 				for _, fct := range edgeFacts(from, to) {
-					if isCounterZeroTest(fct.V) && !fct.True {
+					if z, ok := counterZeroFact(fct); ok && !z {
 						return true
 					}
 				}
@@ -369,6 +369,35 @@ func isCounterStore(i ssa.Instruction, op token.Token) bool {
 	return isC && k.ExactString() == "1"
 }
 
+// counterZeroFact: what the fact says about accessCounter being zero (`== 0` / `!= 0` / `> 0` in either polarity).
+func counterZeroFact(fct Fact) (zero bool, ok bool) {
+	b, isB := fct.V.(*ssa.BinOp)
+	if !isB {
+		return false, false
+	}
+	_, fld, isF := fieldAccess(b.X)
+	k, isC := constOf(b.Y)
+	if !isF || fld != "accessCounter" || !isC || k.ExactString() != "0" {
+		return false, false
+	}
+	switch b.Op {
+	case token.EQL:
+		return fct.True, true
+	case token.NEQ, token.GTR:
+		return !fct.True, true
+	}
+	return false, false
+}
+
+func counterKnownZeroAt(b *ssa.BasicBlock) bool {
+	for _, fct := range factsAt(b) {
+		if z, ok := counterZeroFact(fct); ok && z {
+			return true
+		}
+	}
+	return false
+}
+
 func isCounterZeroTest(v ssa.Value) bool {
 	b, ok := v.(*ssa.BinOp)
 	if !ok || b.Op != token.EQL {
@@ -420,7 +449,7 @@ func ruleC11CloseWaitsAndOrders(c *Ctx) {
 		nd := 0
 		for _, i := range stepSites(cl, isDestroy) {
 			nd++
-			zero := guardedBy(i, true, isCounterZeroTest)
+			zero := counterKnownZeroAt(i.Block())
 			st := d.stateAt(i)
 			c.check(zero && st == lsW, name+".Close/destroy-when-idle", u.ipos(i), "destroyed only where accessCounter == 0 with rw write-locked", "the secret's memory is destroyed while readers may still be inside their callback (not guarded by accessCounter == 0 under the lock)")
 		}
@@ -433,7 +462,7 @@ func ruleC11CloseWaitsAndOrders(c *Ctx) {
 		for _, b := range cl.Blocks {
 			for _, s := range b.Succs {
 				for _, fct := range edgeFacts(b, s) {
-					if isCounterZeroTest(fct.V) && !fct.True {
+					if z, ok := counterZeroFact(fct); ok && !z {
 						sawEdge = true
 						found, _ := pathSearchAt(s, 0, func(j ssa.Instruction) pathAction {
 							if staticIs(j, "(*sync.Cond).Wait") {
